@@ -171,6 +171,13 @@ def getPayloadLength (pipe : Int) : DrvM Nat := do
   modD fun d => { d with plLen := d.plLen.set pipe.toNat v }
   return v
 
+/-- body of the `for i, addr in enumerate(self._pipes)` loop of `__enter__` -/
+def enterPipe (i : Nat) : DrvM Unit := do
+  let d ← getD
+  if i < 2 then regWriteBytes (RX_ADDR_P0 + i) (getPipes d i)
+  else regWrite (RX_ADDR_P0 + i) (d.pipesN.getD (i - 2) 0)
+  setPayloadLength (d.plLen.getD i 0) (some i)
+
 /-- `__enter__` -/
 def enter : DrvM Unit := do
   setCE false
@@ -182,11 +189,12 @@ def enter : DrvM Unit := do
   regWrite AUTO_ACK (← getD).aa
   regWrite TX_FEATURE (← getD).features
   regWrite SETUP_RETR (← getD).retrySetup
-  for i in [0, 1, 2, 3, 4, 5] do
-    let d ← getD
-    if i < 2 then regWriteBytes (RX_ADDR_P0 + i) (getPipes d i)
-    else regWrite (RX_ADDR_P0 + i) (d.pipesN.getD (i - 2) 0)
-    setPayloadLength (d.plLen.getD i 0) (some i)
+  enterPipe 0
+  enterPipe 1
+  enterPipe 2
+  enterPipe 3
+  enterPipe 4
+  enterPipe 5
   regWriteBytes TX_ADDRESS (← getD).txAddress
   regWrite 0x05 (← getD).channel
   regWrite 0x03 ((← getD).addrLen - 2 : Nat)
@@ -589,24 +597,24 @@ def isLnaEnabled : DrvM Bool := do
   modD fun d => { d with rfSetup := v }
   return v &&& 1 ≠ 0
 
+/-- static payload mode: `buf + b"\0" * (pl_len - len(buf))` or `buf[:pl_len]` -/
+def staticPayload (buf : Bytes) (plLen : Nat) : Bytes :=
+  if buf.length < plLen then buf ++ zeros (plLen - buf.length)
+  else if buf.length > plLen then buf.take plLen else buf
+
 /-- `write(buf, ask_no_ack, write_only)`; returns the result and the caller's buffer after the
     call (`buf += …` extends a `bytearray` in place) -/
 def write (buf : Bytes) (mutableBuf : Bool) (askNoAck writeOnly : Bool := false) :
     DrvM (Bool × Bytes) := do
+  let _ := mutableBuf   -- (since the fix `buf = buf + …` the caller's object is never touched)
   let d ← getD
-  let mut b := buf
-  let mut caller := buf
-  if d.dynPl &&& 1 = 0 then
-    let plLen := d.plLen.getD 0 0
-    if buf.length < plLen then
-      b := buf ++ zeros (plLen - buf.length)   -- `buf = buf + …`: a new object, the caller's is untouched
-    else if buf.length > plLen then b := buf.take plLen
-  else if buf.isEmpty ∨ buf.length > 32 then raise .valueError
+  if d.dynPl &&& 1 ≠ 0 ∧ (buf.isEmpty ∨ buf.length > 32) then raise .valueError
+  let b := if d.dynPl &&& 1 = 0 then staticPayload buf (d.plLen.getD 0 0) else buf
   clearStatusFlags
-  if (← getD).status &&& 1 ≠ 0 then return (false, caller)
+  if (← getD).status &&& 1 ≠ 0 then return (false, buf)
   regWriteBytes (0xA0 ||| (b2n askNoAck <<< 4)) b
   if !writeOnly then setCE true
-  return (true, caller)
+  return (true, buf)
 
 /-- result of `send` / `resend`: `False`, `True`, or the ACK payload (`read()` may also give `None`) -/
 inductive SendRes where
